@@ -124,6 +124,26 @@ func run(repo, prop, tier, evPath, verifDir string, seed int, rules []ruleSpec, 
 		n0 := len(c.obls)
 		r.run(c, prop)
 		c.applyTableOverrides(n0)
+		// a rule that compares terms is run a second time with helper inlining when it reports something: a helper
+		// extracted by a refactoring stands for what it returns. The better outcome counts.
+		if nBad(c.obls[n0:]) > 0 && !c.termInline {
+			saved := append([]Obligation{}, c.obls[n0:]...)
+			savedCounts := map[string]int{}
+			for k, v := range c.counts {
+				savedCounts[k] = v
+			}
+			c.obls = c.obls[:n0]
+			c.termInline = true
+			c.termMemo = nil
+			r.run(c, prop)
+			c.applyTableOverrides(n0)
+			c.termInline = false
+			c.termMemo = nil
+			if nBad(c.obls[n0:]) >= nBad(saved) {
+				c.obls = append(c.obls[:n0], saved...)
+				c.counts = savedCounts
+			}
+		}
 		nd, nv, nn, nu := 0, 0, 0, 0
 		for _, o := range c.obls[n0:] {
 			if o.Control {
@@ -282,6 +302,16 @@ func countDecided(c *Ctx) int {
 	n := 0
 	for _, o := range c.obls {
 		if !o.Control && (o.Status == StDischarged || o.Status == StViolated) {
+			n++
+		}
+	}
+	return n
+}
+
+func nBad(l []Obligation) int {
+	n := 0
+	for _, o := range l {
+		if !o.Control && (o.Status == StViolated || o.Status == StUndecided) {
 			n++
 		}
 	}
